@@ -1038,7 +1038,7 @@ impl Prop for C18 {
     fn cases(&self, tier: Tier) -> usize {
         match tier {
             Tier::Quick => 800,
-            Tier::Thorough => 16_000,
+            Tier::Thorough => 2_400,
         }
     }
     fn tape_len(&self, _t: Tier) -> usize {
